@@ -35,3 +35,8 @@ package afpacket
 //@                      && bpfIns[len(pre(bpfIns))].Op == ins.Code && bpfIns[len(pre(bpfIns))].Jt == ins.Jt && bpfIns[len(pre(bpfIns))].Jf == ins.Jf && bpfIns[len(pre(bpfIns))].K == ins.K
 //@                      && (forall k int :: 0 <= k && k < len(pre(bpfIns)) ==> bpfIns[k].Op == pre(bpfIns[k].Op) && bpfIns[k].Jt == pre(bpfIns[k].Jt) && bpfIns[k].Jf == pre(bpfIns[k].Jf) && bpfIns[k].K == pre(bpfIns[k].K)) -> continue
 //@   loop 0 row set:  [call SetBPF(s.handle, bind_raw) as (e2)] when ret == e2 && len(raw) == len(bpfIns) && (forall k int :: 0 <= k && k < len(raw) ==> raw[k].Op == bpfIns[k].Op && raw[k].K == bpfIns[k].K) -> exit
+
+//@ func (*Source).Close
+//@   props C12
+//@   observe Close
+//@   entry row close: [call Close(s.handle)] -> exit
